@@ -10,6 +10,7 @@ import (
 	"fmt"
 	"os"
 	"os/exec"
+	"runtime/debug"
 	"strings"
 	"sync"
 	"sync/atomic"
@@ -158,6 +159,11 @@ func (h *harness) concurrentRound(rng *lib.RNG, round int) {
 		rr := rng.Fork(uint64(100 + w))
 		go func() {
 			defer wg.Done()
+			defer func() {
+				if p := recover(); p != nil {
+					violate("concurrent-reader-panics", fmt.Sprintf("a reader using a view panicked: %v\n%s", p, clip(string(debug.Stack()))))
+				}
+			}()
 			type held struct {
 				v    preconfirmed.ChainReader
 				hash string
@@ -381,4 +387,70 @@ func buildRaceTwin() (string, error) {
 		return "", fmt.Errorf("%v: %s", err, tail(string(out), 600))
 	}
 	return bin, nil
+}
+
+// ---- exhaustive stage ------------------------------------------------------------------------------
+
+// exhaustAlphabet is a small alphabet of writer ops around head 0 (blocks 1..3) chosen so that
+// every relation between an update and the chain occurs: bootstrap at the right / wrong height,
+// extend, same round richer / not richer, new round at the tip and at an inner slot (truncation),
+// blank identifier, delta and no-change at tip and non-tip, unaligned oldestPreConf, gap, and every
+// AdvanceTo outcome (no-op, partial drop, drop to the tip, drop all, below the chain).
+func exhaustAlphabet() []OpSpec {
+	t := func(h uint64) TxSpec { return tx(h, h, DiffSpec{S: [][3]uint64{{100, h % 3, h}}}) }
+	return []OpSpec{
+		blockOp(1, 1, "x", nil),
+		blockOp(1, 1, "x", nil, t(1)),
+		blockOp(1, 1, "y", [][2]uint64{{200, 2200}}),
+		blockOp(1, 1, "0x0", nil, t(2), t(3)),
+		blockOp(2, 1, "x", nil, t(4)),
+		blockOp(2, 1, "y", nil),
+		blockOp(2, 2, "z", nil),
+		blockOp(3, 1, "x", nil),
+		blockOp(3, 2, "w", nil, t(5)),
+		{Op: "apply", U: &UpdateSpec{Kind: "D", Ident: "x", Txs: []TxSpec{t(6)}}, Num: 1, BaseTx: 0, Oldest: 1},
+		{Op: "apply", U: &UpdateSpec{Kind: "D", Ident: "x", Txs: []TxSpec{t(7)}}, Num: 2, BaseTx: 1, Oldest: 1},
+		{Op: "apply", U: &UpdateSpec{Kind: "N"}, Num: 2, Oldest: 1, Classes: [][2]uint64{{201, 2201}}},
+		{Op: "apply", U: &UpdateSpec{Kind: "N"}, Num: 1, Oldest: 1, Classes: [][2]uint64{{200, 2200}}},
+		{Op: "advance", Oldest: 1},
+		{Op: "advance", Oldest: 2},
+		{Op: "advance", Oldest: 3},
+		{Op: "advance", Oldest: 0},
+	}
+}
+
+// exhaustive runs EVERY sequence of at most `depth` ops over the alphabet on the real storage and
+// the model, with the full validation after every op.
+func (h *harness) exhaustive(depth int) {
+	alpha := exhaustAlphabet()
+	var seqs [][]int
+	var rec func(prefix []int)
+	rec = func(prefix []int) {
+		if len(prefix) == depth {
+			seqs = append(seqs, append([]int{}, prefix...))
+			return
+		}
+		for i := range alpha {
+			rec(append(prefix, i))
+		}
+	}
+	rec(nil) // sequences of exactly `depth` ops; every shorter sequence is a prefix of one of them
+	h.parallel(len(seqs), func(w *harness, i int) {
+		scn := &Scenario{Kind: "seq", Head: 0}
+		for _, j := range seqs[i] {
+			scn.Ops = append(scn.Ops, alpha[j])
+		}
+		r, err := runScenario(scn, w.drv != nil)
+		if err != nil {
+			w.res.Note("exhaustive setup: %v", err)
+			return
+		}
+		w.compare(r, scn)
+		w.report(r, scn)
+		w.res.Case(fmt.Sprintf("exh/%v", seqs[i]), r.nontriv)
+		for k, v := range r.hits {
+			w.res.HitN(k, v)
+		}
+	})
+	h.res.HitN(fmt.Sprintf("exhaustive-sequences-depth-%d", depth), len(seqs))
 }
